@@ -225,7 +225,7 @@ def records(lines: List[str]) -> bool:
 
 def file_type(stem: str, k: int) -> bool:
     """
-    pre: len(stem) <= 3 and '.' not in stem
+    pre: len(stem) <= 4 and all(c in 'ab._' for c in stem)
     pre: 0 <= k <= 5
     post: __return__
     """
